@@ -168,6 +168,9 @@ POOL = {
     "date": (["2024-02-29", "2000-02-29", "1900-02-28", "0001-01-01", "9999-12-31", "2023-12-31", "2022-02-01", "1999-01-01"],
              ["2023-02-29", "1900-02-29", "2023-04-31", "2023-13-01", "2023-00-10", "2023-01-00", "0000-01-01", "23-01-01", "2023-1-1",
               "2023-01-01T00:00:00", "２０２３-01-01", "2023-01-01 ", "2023/01/01", ""]),
+    "datetime": (["2024-02-29T23:59:59", "0001-01-01T00:00:00", "2023-12-31T00:00:00"],
+                 ["2022-01-01T10:00:00.5", "2022-01-01T10:00:00.000000001", "2022-01-01T10:00:00Z", "2022-01-01T10:00:00+01:00", "2022-01-01 10:00:00",
+                  "2022-01-01T10:00", "2022-01-01T24:00:00", "2022-13-01T10:00:00", "2022-01-01t10:00:00", "2022-01-01", ""]),
     "amount": (["0", "-0", "-12.50", "0.000001", "123456789.12", "-0.5", "00012.30", "1", "99.999", "-1000000"],
                ["", "1.", ".5", "+5", "--5", "1e3", "1,5", "1.-5", " 1", "1 ", "１２", "NaN", "1.2.3"]),
     "percent": (["21%", "-5.5%", "0%", "21.0%", "100%", "0.001%"], ["21", "%", "21%%", "2 1%", "-%", "1.%"]),
@@ -187,8 +190,13 @@ CUR_RE = re.compile(r"^[A-Z]{3}$")
 CC_RE = re.compile(r"^[A-Z]{2}$")
 
 
+DATETIME_RE = re.compile(r"^[0-9]{4}-[0-9]{2}-[0-9]{2}T[0-9]{2}:[0-9]{2}:[0-9]{2}$")
+
+
 def classes_of(name, val):
     cs = []
+    if DATETIME_RE.match(val):
+        return ["datetime"]
     if DATE_RE.match(val):
         cs.append("date")
     if PCT_RE.match(val):
